@@ -115,44 +115,6 @@ Definition nfit (k : mctx) (h : nshL) (c neg : bool) (kk : Z) (n : list f64) : P
 Definition out_fit (o : noutL) : Prop := contm (no_sch VC o) false (no_pos VC o) /\ contm (no_sch VC o) true (no_neg VC o) /\ -4 <= no_sch VC o <= 8.
 Definition ret_fit (r : nretL) : Prop := match r with NOut _ o => out_fit o | _ => True end.
 
-(* the schema at which the buckets of set X are keyed, given the pc of the mutex holder (None: no claim) *)
-Definition esch (pc : npcL) (h : nshL) (X : bool) : option Z :=
-  match pc with
-  | mRange _ (KD cs) c _ _ | mLoad _ (KD cs) c _ _ _ _ | mAddZb _ (KD cs) c _ _ _ _ _ | mDel _ (KD cs) c _ _ _ _
-  | mDec _ (KD cs) c _ _ _ _ | bLoad _ (KD cs) c _ _ _ _ _ | bLos _ (KD cs) c _ _ _ _ _ | bAdd _ (KD cs) c _ _ _ _ _
-  | bBn _ (KD cs) c _ _ _ _ | mStore _ (KD cs) c _ _ _ _ =>
-      if Bool.eqb X c then Some (cs + 1) else Some (ns_sch VC (gs h X))
-  | dStoreBn2 _ c | eRange _ EPost c _ | eDel _ EPost c _ _ => if Bool.eqb X c then None else Some (ns_sch VC (gs h X))
-  | _ => Some (ns_sch VC (gs h X))
-  end.
-
-Definition PcC (h : nshL) (pc : npcL) : Prop :=
-  match pc with
-  | oLoadZt _ v b s => s = ns_sch VC (gs h b)
-  | oBkLoad _ v b neg k | oBkLos _ v b neg k | oBkAdd _ v b neg k => fit (ns_sch VC (gs h b)) k neg v
-  | lLoadIdx _ | wFlip _ | lLoadBn2 _ _ | zLoadZt _ _ | zRangeP _ _ | zRangeN _ _ _ | zLoadSch _ _ _ | dLoadSch _ _
-  | wLoadSum _ _ _ | wLoadZt _ _ _ _ | wLoadSch _ _ _ _ _ | dStoreBn2 _ _ | eRange _ EPost _ _ | eDel _ EPost _ _ _ => SEq h
-  | zStoreZt _ _ _ nzt | zDelN _ _ _ nzt | zDecN _ _ _ nzt | zDelP _ _ _ nzt | zDecP _ _ _ nzt | zStoreZt2 _ _ _ nzt =>
-      SEq h /\ fle pzero nzt = true
-  | dStoreSch _ hb cs => SEq h /\ cs = ns_sch VC (gs h (negb hb)) - 1 /\ -4 <= cs
-  | dStoreBn _ hb cs => ns_sch VC (gs h (negb hb)) = cs /\ ns_sch VC (gs h hb) = cs + 1
-  | eRange _ (EPre cs) c _ | eDel _ (EPre cs) c _ _ => ns_sch VC (gs h c) = cs /\ ns_sch VC (gs h (negb c)) = cs + 1
-  | xFlip _ k c | xCool _ k c _ | xSpin _ k c _ => KRel k h c /\ KZt k
-  | wLoadZb _ c _ _ _ sch => SEq h /\ sch = ns_sch VC (gs h c)
-  | wRange _ c _ o | wKeyLoad _ c _ o _ _ | wCellLoad _ c _ o _ _ => SEq h /\ no_sch VC o = ns_sch VC (gs h c) /\ out_fit o
-  | aLoadCnt _ k c r | aAddCnt _ k c r _ | aStoreCnt _ k c r | aLoadSum _ k c r | aSumLoad _ k c r _ | aSumCas _ k c r _ _
-  | aStoreSum _ k c r | aLoadZb _ k c r | aAddZb _ k c r _ | aStoreZb _ k c r => KRel k h c /\ KZt k /\ ret_fit r
-  | dStoreSch2 _ c cs => ns_sch VC (gs h (negb c)) = cs /\ ns_sch VC (gs h c) = cs + 1
-  | mRange _ k c _ r | mLoad _ k c _ r _ _ | mDel _ k c _ r _ _ | mDec _ k c _ r _ _ | bBn _ k c _ r _ _ | mStore _ k c _ r _ _ =>
-      LRel k h /\ ret_fit r
-  | mAddZb _ k c neg r kk _ n | bLoad _ k c neg r kk _ n | bLos _ k c neg r kk _ n | bAdd _ k c neg r kk _ n =>
-      LRel k h /\ ret_fit r /\ nfit k h c neg kk n
-  | xUnlock _ r => SEq h /\ ret_fit r
-  | _ => True
-  end.
-Definition Rng (h : nshL) : Prop := forall X, -4 <= ns_sch VC (gs h X) <= 8.
-Definition Ztp (h : nshL) : Prop := forall X, fle pzero (ns_zt VC (gs h X)) = true.
-
 Ltac destr_in Hs :=
   repeat match type of Hs with
          | context [if ?c then _ else _] => let E := fresh "Eif" in destruct c eqn:E
@@ -174,6 +136,65 @@ Ltac destr_goal :=
              | bool => destruct x
              end
          end.
+Lemma lstep_cfg h pc h' nxt : lstep h pc = Some (h', nxt) -> nh_cfg VC h' = nh_cfg VC h.
+Proof.
+  intros Hs. destruct pc; stepin Hs;
+    repeat match type of Hs with
+           | context [if ?c then _ else _] => destruct c
+           | context [match ?x with _ => _ end] =>
+               lazymatch type of x with list _ => destruct x | option _ => destruct x | mctx => destruct x | ephase => destruct x end
+           end; try discriminate Hs; inversion Hs; subst; clear Hs; unfold upd_side; rewrite ?r_done_cfg; try reflexivity;
+    repeat match goal with h0 : nshL |- _ => destruct h0 end; try reflexivity; repeat match goal with b : bool |- _ => destruct b end; reflexivity.
+Qed.
+
+Section WithG.
+Variable GS : Z.   (* the configured schema, to which a reset returns *)
+Hypothesis HG : -4 <= GS <= 8.
+(* the schema at which the buckets of set X are keyed, given the pc of the mutex holder (None: no claim) *)
+Definition esch (pc : npcL) (h : nshL) (X : bool) : option Z :=
+  match pc with
+  | mRange _ (KD cs) c _ _ | mLoad _ (KD cs) c _ _ _ _ | mAddZb _ (KD cs) c _ _ _ _ _ | mDel _ (KD cs) c _ _ _ _
+  | mDec _ (KD cs) c _ _ _ _ | bLoad _ (KD cs) c _ _ _ _ _ | bLos _ (KD cs) c _ _ _ _ _ | bAdd _ (KD cs) c _ _ _ _ _
+  | bBn _ (KD cs) c _ _ _ _ | mStore _ (KD cs) c _ _ _ _ =>
+      if Bool.eqb X c then Some (cs + 1) else Some (ns_sch VC (gs h X))
+  | dStoreBn2 _ c | eRange _ EPost c _ | eDel _ EPost c _ _
+  | rStore _ _ _ c _ | rRange _ _ _ c _ | rDel _ _ _ c _ _ => if Bool.eqb X c then None else Some (ns_sch VC (gs h X))
+  | _ => Some (ns_sch VC (gs h X))
+  end.
+
+Definition PcC (h : nshL) (pc : npcL) : Prop :=
+  match pc with
+  | oLoadZt _ v b s => s = ns_sch VC (gs h b)
+  | oBkLoad _ v b neg k | oBkLos _ v b neg k | oBkAdd _ v b neg k => fit (ns_sch VC (gs h b)) k neg v
+  | lLoadIdx _ _ | wFlip _ | rLoadIdx _ | lLoadBn2 _ _ _ | zLoadZt _ _ | zRangeP _ _ | zRangeN _ _ _ | zLoadSch _ _ _ | dLoadSch _ _
+  | wLoadSum _ _ _ | wLoadZt _ _ _ _ | wLoadSch _ _ _ _ _ | dStoreBn2 _ _ | eRange _ EPost _ _ | eDel _ EPost _ _ _ => SEq h
+  | zStoreZt _ _ _ nzt | zDelN _ _ _ nzt | zDecN _ _ _ nzt | zDelP _ _ _ nzt | zDecP _ _ _ nzt | zStoreZt2 _ _ _ nzt =>
+      SEq h /\ fle pzero nzt = true
+  | dStoreSch _ hb cs => SEq h /\ cs = ns_sch VC (gs h (negb hb)) - 1 /\ -4 <= cs
+  | dStoreBn _ hb cs => ns_sch VC (gs h (negb hb)) = cs /\ ns_sch VC (gs h hb) = cs + 1
+  | eRange _ (EPre cs) c _ | eDel _ (EPre cs) c _ _ => ns_sch VC (gs h c) = cs /\ ns_sch VC (gs h (negb c)) = cs + 1
+  | xFlip _ k c | xCool _ k c _ | xSpin _ k c _ => KRel k h c /\ KZt k
+  | wLoadZb _ c _ _ _ sch => SEq h /\ sch = ns_sch VC (gs h c)
+  | wRange _ c _ o | wKeyLoad _ c _ o _ _ | wCellLoad _ c _ o _ _ => SEq h /\ no_sch VC o = ns_sch VC (gs h c) /\ out_fit o
+  | aLoadCnt _ k c r | aAddCnt _ k c r _ | aStoreCnt _ k c r | aLoadSum _ k c r | aSumLoad _ k c r _ | aSumCas _ k c r _ _
+  | aStoreSum _ k c r | aLoadZb _ k c r | aAddZb _ k c r _ | aStoreZb _ k c r => KRel k h c /\ KZt k /\ ret_fit r
+  | dStoreSch2 _ c cs => ns_sch VC (gs h (negb c)) = cs /\ ns_sch VC (gs h c) = cs + 1
+  | mRange _ k c _ r | mLoad _ k c _ r _ _ | mDel _ k c _ r _ _ | mDec _ k c _ r _ _ | bBn _ k c _ r _ _ | mStore _ k c _ r _ _ =>
+      LRel k h /\ ret_fit r
+  | mAddZb _ k c neg r kk _ n | bLoad _ k c neg r kk _ n | bLos _ k c neg r kk _ n | bAdd _ k c neg r kk _ n =>
+      LRel k h /\ ret_fit r /\ nfit k h c neg kk n
+  | xUnlock _ r => SEq h /\ ret_fit r
+  | rStore _ _ ph x fd => (ph = R2 -> ns_sch VC (gs h (negb x)) = GS) /\ (fd = FBn -> ns_sch VC (gs h x) = GS)
+  | rRange _ _ ph x _ | rDel _ _ ph x _ _ => (ph = R2 -> ns_sch VC (gs h (negb x)) = GS) /\ ns_sch VC (gs h x) = GS
+  | hSumLoad _ _ x | hSumCas _ _ x _ | hLoadSch _ _ x | hBnAdd _ _ x | hZero _ _ x | hCount _ _ x | rSwap _ _ x => ns_sch VC (gs h x) = GS
+  | hLoadZt _ _ x s => ns_sch VC (gs h x) = GS /\ s = GS
+  | hBkLoad _ v x neg k | hBkLos _ v x neg k | hBkAdd _ v x neg k => ns_sch VC (gs h x) = GS /\ fit GS k neg v
+  | rCool _ _ c _ | rSpin _ _ c _ => ns_sch VC (gs h (negb c)) = GS
+  | _ => True
+  end.
+Definition Rng (h : nshL) : Prop := forall X, -4 <= ns_sch VC (gs h X) <= 8.
+Definition Ztp (h : nshL) : Prop := forall X, fle pzero (ns_zt VC (gs h X)) = true.
+
 Ltac csimp := hsimp; cbn [PcC esch clm Bool.eqb negb m_next m_added e_next w_next after_cool after_addreset tkey
                           no_sch no_pos no_neg out_add] in *; unfold SEq, KRel, KZt, LRel, csch, nfit in *; hsimp.
 
@@ -194,7 +215,7 @@ Definition modifies (pc : npcL) : bool :=
   | zStoreZt _ _ _ _ | zDelN _ _ _ _ | zDelP _ _ _ _ | dStoreSch _ _ _ | eDel _ _ _ _ _ | dStoreSch2 _ _ _ | zStoreZt2 _ _ _ _
   | mDel _ _ _ _ _ _ _ | bLos _ _ _ _ _ _ _ _ | bAdd _ _ _ _ _ _ _ _ | mStore _ _ _ _ _ _ _
   | oBkLos _ _ _ _ _ | oBkAdd _ _ _ _ _ => true
-  | _ => false
+  | _ => is_reset pc
   end.
 Lemma czsame_step h pc h' nxt : modifies pc = false -> lstep h pc = Some (h', nxt) -> czsame h h'.
 Proof.
@@ -239,7 +260,7 @@ Definition special (pc : npcL) : bool :=
   match pc with
   | zStoreZt _ _ _ _ | dStoreSch _ _ _ | eDel _ EPost _ _ _ | dStoreSch2 _ _ _ | zStoreZt2 _ _ _ _
   | bLos _ _ _ _ _ _ _ _ | bAdd _ _ _ _ _ _ _ _ | oBkLos _ _ _ _ _ | oBkAdd _ _ _ _ _ => true
-  | _ => false
+  | _ => is_reset pc
   end.
 Lemma cprev_step h pc h' nxt : special pc = false -> lstep h pc = Some (h', nxt) -> cprev h h'.
 Proof.
@@ -304,7 +325,7 @@ Qed.
 Ltac spsimp := hsimp; cbn [PcC esch clm Bool.eqb negb m_next m_added tkey ret_fit] in *;
   unfold SEq, KRel, KZt, LRel, csch, nfit, cont in *; hsimp.
 
-Lemma specstep h f sb pc h' nxt : (forall X, f X = 0 -> sb X = []) -> Phi h f sb pc -> holds pc = true -> special pc = true ->
+Lemma specstep h f sb pc h' nxt : (forall X, f X = 0 -> sb X = []) -> Phi h f sb pc -> holds pc = true -> special pc = true -> is_reset pc = false ->
   lstep h pc = Some (h', nxt) -> Rng h -> Ztp h -> PcC h pc -> (forall X, clm (esch pc h X) (gs h X)) ->
   Rng h' /\ Ztp h' /\
   match nxt with
@@ -312,19 +333,19 @@ Lemma specstep h f sb pc h' nxt : (forall X, f X = 0 -> sb X = []) -> Phi h f sb
   | inr r => ret_fit r /\ SEq h' /\ forall X, cont (ns_sch VC (gs h' X)) (gs h' X)
   end.
 Proof.
-  intros fsb HP Hh Es Hs HR HZ HPc HC.
+  intros fsb HP Hh Es Er Hs HR HZ HPc HC.
   pose proof (HR false) as R0; pose proof (HR true) as R1; pose proof (HZ false) as Z0; pose proof (HZ true) as Z1;
   pose proof (HC false) as C0; pose proof (HC true) as C1; clear HR HZ HC.
-  destruct pc; try discriminate Hh; try discriminate Es; try (destruct ph; try discriminate Es).
-  - (* zStoreZt *) stepin Hs. inversion Hs; subst; clear Hs. unfold Rng, Ztp. destruct h as [g H tk s0 s1 m]. destruct hb; spsimp;
+  destruct pc; try discriminate Hh; try discriminate Es; try discriminate Er; try (destruct ph; try discriminate Es).
+  - (* zStoreZt *) stepin Hs. inversion Hs; subst; clear Hs. unfold Rng, Ztp. destruct h as [g H tk s0 s1 m rs]. destruct hb; spsimp;
       (split; [intros [|]; spsimp; assumption|split; [intros [|]; spsimp; tauto|split; [tauto|intros [|]; spsimp; assumption]]]).
   - (* dStoreSch *) stepin Hs. inversion Hs; subst; clear Hs. cbn [Phi] in HP. destruct HP as [EH ((_ & _ & E3 & E4) & _)].
-    unfold Rng, Ztp. destruct h as [g H tk s0 s1 m]. hsimp. subst H. destruct hb; spsimp; destruct HPc as (A & B & C);
+    unfold Rng, Ztp. destruct h as [g H tk s0 s1 m rs]. hsimp. subst H. destruct hb; spsimp; destruct HPc as (A & B & C);
       (split; [intros [|]; spsimp; lia|split; [intros [|]; spsimp; assumption|split; [lia|intros [|]; spsimp; try assumption; split; apply contm_nil; assumption]]]).
   - (* eDel EPost *) cbn [Phi] in HP. destruct HP as (PD & HN & EK). destruct PD as (EH & _).
     assert (Hm : forall (m : vmap) k, cm_keys VC m = [k] -> cm_del VC m k = []).
     { intros m0 k0 E. destruct m0 as [|[k1 x1] [|p r]]; try discriminate E. cbn in E. inversion E. subst. apply keys_del_head. }
-    destruct h as [g H tk s0 s1 m]; hsimp; subst H.
+    destruct h as [g H tk s0 s1 m rs]; hsimp; subst H.
     stepin Hs. destruct ks as [|k ks']; inversion Hs; subst h' nxt; clear Hs; unfold Rng, Ztp, upd_side, e_next;
       destruct c, neg; spsimp;
       try (destruct ks' as [|k2 ks2]); spsimp;
@@ -333,57 +354,25 @@ Proof.
       (split; [first [assumption|split; [assumption|exact I]]|
                intros [|]; spsimp; try exact I; try assumption; try tauto;
                try (rewrite (Hm _ _ EK)); rewrite ?EK, ?HN; split; apply contm_empty]).
-  - (* zStoreZt2 *) stepin Hs. inversion Hs; subst; clear Hs. unfold Rng, Ztp. destruct h as [g H tk s0 s1 m]. destruct c; spsimp;
+  - (* zStoreZt2 *) stepin Hs. inversion Hs; subst; clear Hs. unfold Rng, Ztp. destruct h as [g H tk s0 s1 m rs]. destruct c; spsimp;
       (split; [intros [|]; spsimp; assumption|split; [intros [|]; spsimp; tauto|split; [tauto|intros [|]; spsimp; assumption]]]).
-  - (* dStoreSch2 *) stepin Hs. inversion Hs; subst; clear Hs. unfold Rng, Ztp. destruct h as [g H tk s0 s1 m]. destruct c; spsimp; destruct HPc as [A B];
+  - (* dStoreSch2 *) stepin Hs. inversion Hs; subst; clear Hs. unfold Rng, Ztp. destruct h as [g H tk s0 s1 m rs]. destruct c; spsimp; destruct HPc as [A B];
       (split; [intros [|]; spsimp; lia|split; [intros [|]; spsimp; assumption|split; [split; [lia|exact I]|
          intros [|]; spsimp; rewrite <- ?B, ?A in *; assumption]]]).
   - (* bLos *) stepin Hs. change (nget VC h (negb c)) with (gs h (negb c)) in Hs.
     destruct (cm_has VC (side VC (gs h (negb c)) neg) (tkey k kk)); inversion Hs; subst h' nxt; clear Hs.
     + split; [intros [|]; assumption|split; [intros [|]; assumption|split; [exact HPc|intros [|]; assumption]]].
-    + unfold Rng, Ztp, upd_side. destruct h as [g H tk s0 s1 m]. destruct k as [|sk nzt|cs], c, neg; spsimp; destruct HPc as (L & G & NF);
+    + unfold Rng, Ztp, upd_side. destruct h as [g H tk s0 s1 m rs]. destruct k as [|sk nzt|cs], c, neg; spsimp; destruct HPc as (L & G & NF);
       (split; [intros [|]; spsimp; assumption|split; [intros [|]; spsimp; assumption|split; [tauto|
          intros [|]; spsimp; try tauto; (split; try tauto; apply contm_ins; [tauto|]; intros v Hv;
            first [ exact (NF v Hv) | rewrite L; exact (NF v Hv) | rewrite <- L; exact (NF v Hv)
                  | destruct L as (A & B & C); rewrite ?A, ?B; apply fit_halve'; [lia|lia|exact (NF v Hv)] ])]]]).
   - (* bAdd *) stepin Hs. inversion Hs; subst h' nxt; clear Hs. unfold Rng, Ztp, upd_side, m_added, m_next.
-    destruct h as [g H tk s0 s1 m]. destruct k as [|sk nzt|cs], c, neg; try (destruct ks as [|k2 ks2]); spsimp; destruct HPc as (L & G & NF);
+    destruct h as [g H tk s0 s1 m rs]. destruct k as [|sk nzt|cs], c, neg; try (destruct ks as [|k2 ks2]); spsimp; destruct HPc as (L & G & NF);
       (split; [intros [|]; spsimp; assumption|split; [intros [|]; spsimp; assumption|split; [first [tauto|destruct L as (A & B & C); congruence]|
          intros [|]; spsimp; try exact I; try tauto; (split; try tauto; apply contm_app; [tauto|]; intros v Hv;
            first [ exact (NF v Hv) | rewrite L; exact (NF v Hv) | rewrite <- L; exact (NF v Hv)
                  | destruct L as (A & B & C); rewrite ?A, ?B; apply fit_halve'; [lia|lia|exact (NF v Hv)] ])]]]).
-Qed.
-
-Lemma contH h f sb pc h' nxt : (forall X, f X = 0 -> sb X = []) -> Phi h f sb pc -> holds pc = true ->
-  lstep h pc = Some (h', nxt) -> Rng h -> Ztp h -> PcC h pc -> (forall X, clm (esch pc h X) (gs h X)) ->
-  Rng h' /\ Ztp h' /\
-  match nxt with
-  | inl pc' => PcC h' pc' /\ (forall X, clm (esch pc' h' X) (gs h' X))
-  | inr r => ret_fit r /\ SEq h' /\ forall X, cont (ns_sch VC (gs h' X)) (gs h' X)
-  end.
-Proof.
-  intros fsb HP Hh Hs HR HZ HPc HC. destruct (special pc) eqn:Es; [apply (specstep h f sb pc h' nxt fsb HP Hh Es Hs HR HZ HPc HC)|].
-  pose proof (cprev_step h pc h' nxt Es Hs) as CP. pose proof (cprev_s _ _ CP) as CS.
-  pose proof (pcstep h f sb pc h' nxt fsb HP Hh Es Hs HR HPc HC) as PS.
-  split; [apply (frame_rng _ _ CS HR)|split; [apply (frame_zt _ _ CP HZ)|]]. destruct nxt as [pc'|r].
-  - destruct PS as [A B]. split; [apply (frame_pcc _ _ _ CS A)|intros X; apply (frame_clm _ _ _ _ CS (B X))].
-  - destruct PS as (A & B & C). split; [exact A|split].
-    + unfold SEq in *. destruct (CS false) as [E0 _]. destruct (CS true) as [E1 _]. congruence.
-    + intros X. destruct (CS X) as [E _]. rewrite E. apply (frame_cont _ _ _ _ CS (C X)).
-Qed.
-
-(* a set with an observer in flight is never one of the exceptional (drained) sets *)
-Lemma esch_default h f sb pc X : Phi h f sb pc -> 0 < f X -> esch pc h X = Some (ns_sch VC (gs h X)).
-Proof.
-  intros HP HF. destruct pc; cbn [esch]; try reflexivity; cbn [Phi] in HP;
-    try (destruct k; try reflexivity); try (destruct ph; try reflexivity);
-    destruct (Bool.eqb_spec X c) as [->|N]; try reflexivity; exfalso;
-    repeat match goal with H : _ /\ _ |- _ => destruct H end;
-    match goal with
-    | H : LOOP _ _ _ _ _ _ _ _ _ _ |- _ => destruct H as ((_ & F0 & _) & _); lia
-    | H : TR _ _ _ _ _ _ _ _ |- _ => destruct H as (_ & F0 & _); lia
-    | H : PostDel _ _ _ _ |- _ => destruct H as (_ & F0 & _); lia
-    end.
 Qed.
 
 (* how histogramCounts.observe classifies: the bucket key it computes fits the value *)
@@ -400,22 +389,193 @@ Proof.
   apply neg_signbit. apply (flt_fle_trans v (fneg z) pzero Hl (fneg_fle_zero z Hz)).
 Qed.
 
-Lemma contO h pc h' nxt : holds pc = false -> pc <> lLock VC -> pc <> wLock VC -> obs_ok h pc ->
+Lemma emp_cont h X s : allc (ns_pos VC (gs h X)) = [] -> allc (ns_neg VC (gs h X)) = [] -> cont s (gs h X).
+Proof. intros A B. split; apply contm_nil; assumption. Qed.
+Lemma rdone_gs' h rk ph neg ks X : gs (r_done VC rk ph neg ks h) X = gs h X. Proof. apply r_done_gs. Qed.
+
+Lemma r_done_hot h rk ph neg ks : nh_hot VC (r_done VC rk ph neg ks h) = nh_hot VC h. Proof. destruct ks, neg, ph, h; reflexivity. Qed.
+Lemma rnext_claims h h1 f sb rk ph x neg ks :
+  (forall X, ns_sch VC (gs h1 X) = ns_sch VC (gs h X)) -> gs h1 (negb x) = gs h (negb x) -> nh_hot VC h1 = nh_hot VC h ->
+  (ph = R2 -> nh_hot VC h = negb x) ->
+  Phi h1 f sb (r_next VC rk ph x neg ks) ->
+  (ph = R2 -> ns_sch VC (gs h (negb x)) = GS) -> ns_sch VC (gs h x) = GS ->
+  cont (ns_sch VC (gs h (negb x))) (gs h (negb x)) ->
+  PcC h1 (r_next VC rk ph x neg ks) /\ forall X, clm (esch (r_next VC rk ph x neg ks) h1 X) (gs h1 X).
+Proof.
+  intros ES EO EH HH PN P1 P2 CO.
+  assert (CO1 : cont (ns_sch VC (gs h1 (negb x))) (gs h1 (negb x))) by (rewrite ES, EO; exact CO).
+  assert (NX : forall X, X <> x -> X = negb x) by (intros [|]; destruct x; intros N; try reflexivity; contradiction N; reflexivity).
+  assert (CN : forall X, clm (if Bool.eqb X x then None else Some (ns_sch VC (gs h1 X))) (gs h1 X)).
+  { intros X. destruct (Bool.eqb_spec X x) as [->|N]; [exact I|]. rewrite (NX X N). exact CO1. }
+  destruct ks as [|k ks'].
+  2:{ cbn [r_next PcC esch]. split; [split; [intros E; rewrite ES; auto|rewrite ES; exact P2]|exact CN]. }
+  destruct neg; cbn [r_next] in *.
+  { cbn [PcC esch]. split; [split; [intros E; rewrite ES; auto|rewrite ES; exact P2]|exact CN]. }
+  destruct ph; cbn [r_after] in *.
+  - destruct rk; cbn [PcC esch Phi] in *; (split; [rewrite ES; exact P2|]); intros X; cbn [clm];
+      (destruct (Bool.bool_dec X x) as [->|N]; [|rewrite (NX X N); exact CO1]);
+      destruct PN as [E ((_ & _ & A & B) & _)]; subst x; apply emp_cont; assumption.
+  - cbn [PcC esch ret_fit Phi] in *. split; [split; [unfold SEq; rewrite !ES; destruct x; cbn [negb] in *; rewrite (P1 eq_refl), P2; reflexivity|exact I]|].
+    intros X; cbn [clm]. destruct (Bool.bool_dec X x) as [->|N]; [|rewrite (NX X N); exact CO1].
+    destruct PN as [((_ & _ & A & B) & _) _]. rewrite EH, (HH eq_refl), Bool.negb_involutive in A, B. apply emp_cont; assumption.
+Qed.
+
+Ltac rfin := unfold Rng, Ztp in *; cbn [PcC esch clm Bool.eqb] in *; hsimp;
+  (split; [intros [|]; hsimp; assumption|split; [intros [|]; hsimp; assumption|split; [cbn [PcC]; hsimp; try assumption; try tauto|
+     intros [|]; cbn [esch clm Bool.eqb]; hsimp; try exact I; assumption]]]).
+
+(* the reset code: resetCounts on the cold set, the holder's repeated observation, the swap, the cool-down, the second resetCounts *)
+Lemma resetstep h f sb pc h' nxt : Phi h f sb pc -> is_reset pc = true ->
+  lstep h pc = Some (h', nxt) -> Rng h -> Ztp h -> PcC h pc -> (forall X, clm (esch pc h X) (gs h X)) ->
+  Post h f sb h' nxt -> g_schema (nh_cfg VC h) = GS ->
+  Rng h' /\ Ztp h' /\
+  match nxt with
+  | inl pc' => PcC h' pc' /\ (forall X, clm (esch pc' h' X) (gs h' X))
+  | inr r => ret_fit r /\ SEq h' /\ forall X, cont (ns_sch VC (gs h' X)) (gs h' X)
+  end.
+Proof.
+  intros HP Er Hs HR HZ HPc HC PO HCfg.
+  pose proof (HR false) as R0; pose proof (HR true) as R1; pose proof (HZ false) as Z0; pose proof (HZ true) as Z1;
+  pose proof (HC false) as C0; pose proof (HC true) as C1.
+  destruct pc; try discriminate Er.
+  - (* rLoadIdx *) stepin Hs. inversion Hs; subst h' nxt; clear Hs. split; [exact HR|split; [exact HZ|split]].
+    + cbn [PcC]. split; intros E; discriminate E.
+    + intros X. specialize (HC X). cbn [esch clm] in *. destruct (Bool.eqb X _); [exact I|exact HC].
+  - (* rStore *) stepin Hs. inversion Hs; subst h' nxt; clear Hs PO. destruct HPc as [P1 P2].
+    destruct h as [g0 H0 tk0 s00 s10 m0 rs0]; unfold Rng, Ztp in *; hsimp.
+    destruct x, fd; cbn [rfield_next esch clm Bool.eqb] in *; hsimp.
+    all: (split; [intros [|]; hsimp; auto; rewrite HCfg; exact HG|split; [intros [|]; hsimp; auto; apply init_zt_nonneg|split]]).
+    all: try (intros [|]; cbn [esch clm Bool.eqb]; hsimp; first [exact I|assumption]).
+    all: cbn [PcC]; hsimp; (split; [exact P1|]); first [intros E; discriminate E|intros _; exact HCfg|intros _; exact (P2 eq_refl)|exact (P2 eq_refl)].
+  - (* rRange *) stepin Hs. inversion Hs; subst h' nxt; clear Hs. destruct HPc as [P1 P2]. destruct PO as ((PN & _) & _).
+    set (ks := cm_keys VC (side VC (nget VC h x) neg)) in *.
+    split; [intros X; rewrite r_done_gs; apply HR|split; [intros X; rewrite r_done_gs; apply HZ|]].
+    apply (rnext_claims h _ f sb rk ph x neg ks); auto.
+    + intros X. rewrite r_done_gs. reflexivity.
+    + apply r_done_gs.
+    + apply r_done_hot.
+    + intros ->. cbn [Phi] in HP. apply HP.
+    + specialize (HC (negb x)). cbn [esch] in HC. rewrite Bool.eqb_negb1 in HC. exact HC.
+  - (* rDel *) destruct HPc as [P1 P2].
+    assert (Eq : lstep h (rDel VC rk ph x neg ks) = match ks with [] => Some (r_done VC rk ph neg [] h, inl (r_next VC rk ph x neg [])) | k :: ks' => Some (r_done VC rk ph neg ks' (upd_side VC h x neg (fun m => cm_del VC m k)), inl (r_next VC rk ph x neg ks')) end) by (destruct ks; reflexivity).
+    rewrite Eq in Hs; clear Eq.
+    assert (HH : ph = R2 -> nh_hot VC h = negb x) by (intros ->; cbn [Phi] in HP; apply HP).
+    assert (CO : cont (ns_sch VC (gs h (negb x))) (gs h (negb x))) by (specialize (HC (negb x)); cbn [esch] in HC; rewrite Bool.eqb_negb1 in HC; exact HC).
+    destruct ks as [|k ks']; injection Hs as E1 E2; subst h' nxt; destruct PO as ((PN & _) & _).
+    + change (if neg then h else set_rs VC h (r_fin rk ph (nh_rs VC h))) with (r_done VC rk ph neg [] h) in *.
+      change (if neg then rRange VC rk ph x false else r_after VC rk ph x) with (r_next VC rk ph x neg []) in *.
+      split; [intros X; rewrite r_done_gs; apply HR|split; [intros X; rewrite r_done_gs; apply HZ|]].
+      apply (rnext_claims h _ f sb rk ph x neg []); auto; [intros X; rewrite r_done_gs; reflexivity|apply r_done_gs|apply r_done_hot].
+    + assert (E1 : forall X, ns_sch VC (gs (upd_side VC h x neg (fun m => cm_del VC m k)) X) = ns_sch VC (gs h X) /\
+                              ns_zt VC (gs (upd_side VC h x neg (fun m => cm_del VC m k)) X) = ns_zt VC (gs h X))
+        by (intros X; unfold upd_side; destruct h, x, X, neg; split; reflexivity).
+      assert (E2 : gs (upd_side VC h x neg (fun m => cm_del VC m k)) (negb x) = gs h (negb x)) by (unfold upd_side; destruct h, x; reflexivity).
+      assert (E3 : nh_hot VC (upd_side VC h x neg (fun m => cm_del VC m k)) = nh_hot VC h) by (unfold upd_side; destruct h, x; reflexivity).
+      split; [intros X; rewrite r_done_gs; rewrite (proj1 (E1 X)); apply HR|split; [intros X; rewrite r_done_gs; rewrite (proj2 (E1 X)); apply HZ|]].
+      apply (rnext_claims h _ f sb rk ph x neg ks'); auto.
+      * intros X. rewrite r_done_gs. apply E1.
+      * rewrite r_done_gs. exact E2.
+      * rewrite r_done_hot. exact E3.
+  - (* hSumLoad *) stepin Hs. inversion Hs; subst h' nxt; clear Hs PO. cbn [PcC esch] in *. split; [exact HR|split; [exact HZ|split; [exact HPc|exact HC]]].
+  - (* hSumCas *) stepin Hs. destruct (fbits_eq _ _); inversion Hs; subst h' nxt; clear Hs PO.
+    + destruct h as [g0 H0 tk0 s00 s10 m0 rs0]. destruct x, (is_nan v); rfin.
+    + cbn [PcC esch] in *. split; [exact HR|split; [exact HZ|split; [exact HPc|exact HC]]].
+  - (* hLoadSch *) stepin Hs. inversion Hs; subst h' nxt; clear Hs PO. cbn [PcC esch] in *. split; [exact HR|split; [exact HZ|split; [split; exact HPc|exact HC]]].
+  - (* hLoadZt *) stepin Hs. inversion Hs; subst h' nxt; clear Hs PO. cbn [Phi] in HP. destruct HP as [_ Nn]. destruct HPc as [A B]. subst s.
+    split; [exact HR|split; [exact HZ|]]. change (nget VC h x) with (gs h x).
+    destruct (fgt v (ns_zt VC (gs h x))) eqn:E1; [|destruct (flt v (fneg (ns_zt VC (gs h x)))) eqn:E2]; cbn [PcC esch] in *; (split; [|exact HC]).
+    + split; [exact A|apply (fit_pos _ _ v (HZ x) Nn E1)].
+    + split; [exact A|apply (fit_neg _ _ v (HZ x) Nn E1 E2)].
+    + exact A.
+  - (* hBkLoad *) stepin Hs. inversion Hs; subst h' nxt; clear Hs PO. split; [exact HR|split; [exact HZ|]].
+    destruct (cm_has _ _ _); cbn [PcC esch] in *; (split; [exact HPc|exact HC]).
+  - (* hBkLos *) stepin Hs. destruct HPc as [A FT]. destruct (cm_has _ _ _); inversion Hs; subst h' nxt; clear Hs PO.
+    + cbn [PcC esch] in *. split; [exact HR|split; [exact HZ|split; [split; assumption|exact HC]]].
+    + unfold upd_side. destruct h as [g0 H0 tk0 s00 s10 m0 rs0]. unfold Rng, Ztp in *; cbn [PcC esch clm Bool.eqb] in *; hsimp.
+      destruct x, neg; hsimp;
+      (split; [intros [|]; hsimp; assumption|split; [intros [|]; hsimp; assumption|split; [cbn [PcC]; hsimp; assumption|
+         intros [|]; cbn [esch clm Bool.eqb]; hsimp; try assumption; destruct C0 as [C0a C0b]; destruct C1 as [C1a C1b]; split; hsimp; try assumption;
+           (apply contm_ins; [assumption|]; intros w [<-|[]]; rewrite A; exact FT)]]]).
+  - (* hBkAdd *) stepin Hs. destruct HPc as [A FT]. inversion Hs; subst h' nxt; clear Hs PO.
+    unfold upd_side. destruct h as [g0 H0 tk0 s00 s10 m0 rs0]. unfold Rng, Ztp in *; cbn [PcC esch clm Bool.eqb] in *; hsimp.
+      destruct x, neg; hsimp;
+      (split; [intros [|]; hsimp; assumption|split; [intros [|]; hsimp; assumption|split; [cbn [PcC]; hsimp; assumption|
+         intros [|]; cbn [esch clm Bool.eqb]; hsimp; try assumption; destruct C0 as [C0a C0b]; destruct C1 as [C1a C1b]; split; hsimp; try assumption;
+           (apply contm_app; [assumption|]; intros w [<-|[]]; rewrite A; exact FT)]]]).
+  - (* hBnAdd *) stepin Hs. inversion Hs; subst h' nxt; clear Hs PO. destruct h as [g0 H0 tk0 s00 s10 m0 rs0]. destruct x; rfin.
+  - (* hZero *) stepin Hs. inversion Hs; subst h' nxt; clear Hs PO. destruct h as [g0 H0 tk0 s00 s10 m0 rs0]. destruct x; rfin.
+  - (* hCount *) stepin Hs. inversion Hs; subst h' nxt; clear Hs PO. destruct h as [g0 H0 tk0 s00 s10 m0 rs0]. destruct x; rfin.
+  - (* rSwap *) stepin Hs. inversion Hs; subst h' nxt; clear Hs PO. destruct h as [g0 H0 tk0 s00 s10 m0 rs0]. destruct x; rfin.
+  - (* rCool *) stepin Hs. inversion Hs; subst h' nxt; clear Hs PO. split; [exact HR|split; [exact HZ|]].
+    destruct (_ =? _); cbn [PcC esch] in *.
+    + split; [split; [intros _; exact HPc|intros E; discriminate E]|]. intros X. destruct (Bool.eqb X c); [exact I|apply HC].
+    + split; [exact HPc|exact HC].
+  - (* rSpin *) stepin Hs. inversion Hs; subst h' nxt; clear Hs PO. cbn [PcC esch] in *. split; [exact HR|split; [exact HZ|split; [exact HPc|exact HC]]].
+Qed.
+
+Lemma contH h f sb pc h' nxt : (forall X, f X = 0 -> sb X = []) -> Phi h f sb pc -> holds pc = true ->
+  lstep h pc = Some (h', nxt) -> Rng h -> Ztp h -> PcC h pc -> (forall X, clm (esch pc h X) (gs h X)) ->
+  Post h f sb h' nxt -> g_schema (nh_cfg VC h) = GS ->
+  Rng h' /\ Ztp h' /\
+  match nxt with
+  | inl pc' => PcC h' pc' /\ (forall X, clm (esch pc' h' X) (gs h' X))
+  | inr r => ret_fit r /\ SEq h' /\ forall X, cont (ns_sch VC (gs h' X)) (gs h' X)
+  end.
+Proof.
+  intros fsb HP Hh Hs HR HZ HPc HC PO HCfg.
+  destruct (is_reset pc) eqn:Er; [apply (resetstep h f sb pc h' nxt HP Er Hs HR HZ HPc HC PO HCfg)|].
+  destruct (special pc) eqn:Es; [apply (specstep h f sb pc h' nxt fsb HP Hh Es Er Hs HR HZ HPc HC)|].
+  pose proof (cprev_step h pc h' nxt Es Hs) as CP. pose proof (cprev_s _ _ CP) as CS.
+  pose proof (pcstep h f sb pc h' nxt fsb HP Hh Es Hs HR HPc HC) as PS.
+  split; [apply (frame_rng _ _ CS HR)|split; [apply (frame_zt _ _ CP HZ)|]]. destruct nxt as [pc'|r].
+  - destruct PS as [A B]. split; [apply (frame_pcc _ _ _ CS A)|intros X; apply (frame_clm _ _ _ _ CS (B X))].
+  - destruct PS as (A & B & C). split; [exact A|split].
+    + unfold SEq in *. destruct (CS false) as [E0 _]. destruct (CS true) as [E1 _]. congruence.
+    + intros X. destruct (CS X) as [E _]. rewrite E. apply (frame_cont _ _ _ _ CS (C X)).
+Qed.
+
+(* a set with an observer in flight is never one of the exceptional (drained) sets *)
+Lemma esch_default h f sb pc X : Phi h f sb pc -> 0 < f X -> esch pc h X = Some (ns_sch VC (gs h X)).
+Proof.
+  intros HP HF.
+  assert (RS : forall x, (PreC h f sb x \/ Wipe h f sb x \/ PostDel h f sb x) ->
+             (if Bool.eqb X x then None else Some (ns_sch VC (gs h X))) = Some (ns_sch VC (gs h X))).
+  { intros x Hx. destruct (Bool.eqb_spec X x) as [->|N]; [exfalso|reflexivity].
+    destruct Hx as [[E (_ & F0 & _)]|[(_ & F0 & _)|(_ & F0 & _)]]; [subst x|idtac|idtac]; lia. }
+  assert (R1c : forall rk ph x fd, pc = rStore VC rk ph x fd -> esch pc h X = Some (ns_sch VC (gs h X))).
+  { intros rk ph x fd ->. cbn [esch]. apply RS. cbn [Phi] in HP. destruct ph; [left; exact HP|right; left; apply HP]. }
+  assert (R2c : forall rk ph x neg, pc = rRange VC rk ph x neg -> esch pc h X = Some (ns_sch VC (gs h X))).
+  { intros rk ph x neg ->. cbn [esch]. apply RS. cbn [Phi] in HP. destruct ph; [left; exact HP|right; right; apply HP]. }
+  assert (R3c : forall rk ph x neg ks, pc = rDel VC rk ph x neg ks -> esch pc h X = Some (ns_sch VC (gs h X))).
+  { intros rk ph x neg ks ->. cbn [esch]. apply RS. cbn [Phi] in HP. destruct ph; [left; exact HP|right; right; apply HP]. }
+  clear HG. destruct pc; try (eapply R1c; reflexivity); try (eapply R2c; reflexivity); try (eapply R3c; reflexivity); clear RS R1c R2c R3c;
+    cbn [esch]; try reflexivity; cbn [Phi] in HP;
+    try (destruct k; try reflexivity); try (destruct ph; try reflexivity);
+    destruct (Bool.eqb_spec X c) as [->|N]; try reflexivity; exfalso;
+    repeat match goal with H : _ /\ _ |- _ => destruct H end;
+    match goal with
+    | H : LOOP _ _ _ _ _ _ _ _ _ _ |- _ => destruct H as ((_ & F0 & _) & _); lia
+    | H : TR _ _ _ _ _ _ _ _ |- _ => destruct H as (_ & F0 & _); lia
+    | H : PostDel _ _ _ _ |- _ => destruct H as (_ & F0 & _); lia
+    end.
+Qed.
+
+Lemma contO h pc h' nxt : holds pc = false -> is_lock pc = false -> obs_ok h pc ->
   lstep h pc = Some (h', nxt) -> Rng h -> Ztp h -> PcC h pc ->
   (forall X, ns_sch VC (gs h' X) = ns_sch VC (gs h X) /\ ns_zt VC (gs h' X) = ns_zt VC (gs h X)) /\
   match nxt with inl pc' => PcC h' pc' | inr r => r = NUnit VC end /\
   (forall X s, cont s (gs h X) -> (inflight pc = Some X -> s = ns_sch VC (gs h X)) -> cont s (gs h' X)).
 Proof.
-  intros Hh N1 N2 OK Hs HR HZ HPc. destruct (modifies pc) eqn:Em.
+  intros Hh Hl OK Hs HR HZ HPc. destruct (modifies pc) eqn:Em.
   - (* oBkLos, oBkAdd *)
     destruct pc; try discriminate Hh; try discriminate Em; cbn [PcC obs_ok inflight] in *; stepin Hs.
     + change (nget VC h b) with (gs h b) in Hs. destruct (cm_has VC (side VC (gs h b) neg) k) eqn:Eh; inversion Hs; subst h' nxt; clear Hs.
       * split; [intros X; split; reflexivity|split; [cbn [PcC]; exact HPc|intros X s C _; exact C]].
-      * unfold upd_side. destruct h as [g H tk s0 s1 m]. destruct b, neg; hsimp;
+      * unfold upd_side. destruct h as [g H tk s0 s1 m rs]. destruct b, neg; hsimp;
           (split; [intros [|]; hsimp; split; reflexivity|split; [exact I|]]);
           intros [|] s [C1 C2] E; hsimp; unfold cont; hsimp; try (split; assumption);
           (split; try assumption; apply contm_ins; [assumption|]; intros w [<-|[]]; rewrite (E eq_refl); exact HPc).
-    + destruct OK as [Eh Nn]. inversion Hs; subst h' nxt; clear Hs. unfold upd_side. destruct h as [g H tk s0 s1 m]. destruct b, neg; hsimp;
+    + destruct OK as [Eh Nn]. inversion Hs; subst h' nxt; clear Hs. unfold upd_side. destruct h as [g H tk s0 s1 m rs]. destruct b, neg; hsimp;
           (split; [intros [|]; hsimp; split; reflexivity|split; [exact I|]]);
           intros [|] s [C1 C2] E; hsimp; unfold cont; hsimp; try (split; assumption);
           (split; try assumption; apply contm_app; [assumption|]; intros w [<-|[]]; rewrite (E eq_refl); exact HPc).
@@ -423,7 +583,7 @@ Proof.
     split; [intros X; destruct (CZ X) as (A & B & _); split; assumption|]. split.
     2:{ intros X s C _. apply (frame_cont h h' s X CS C). }
     assert (P : match nxt with inl pc' => PcC h pc' | inr r => r = NUnit VC end).
-    { destruct pc; try discriminate Hh; try congruence; cbn [PcC obs_ok] in *; stepin Hs; destr_in Hs; inversion Hs; subst h' nxt; clear Hs; cbn [PcC]; auto.
+    { destruct pc; try discriminate Hh; try discriminate Hl; cbn [PcC obs_ok] in *; stepin Hs; destr_in Hs; inversion Hs; subst h' nxt; clear Hs; cbn [PcC]; auto.
       - (* oLoadZt: positive *) subst s. apply (fit_pos _ _ v (HZ b) OK Eif).
       - subst s. apply (fit_neg _ _ v (HZ b) OK Eif Eif0). }
     destruct nxt as [pc'|r]; [apply (frame_pcc _ _ _ CS P)|exact P].
@@ -450,16 +610,22 @@ Proof. intros Hh E. destruct pc; try discriminate Hh; cbn [PcC inflight] in *; a
 Lemma esch_sch_frame h h' pc X : (forall X, ns_sch VC (gs h' X) = ns_sch VC (gs h X)) -> esch pc h' X = esch pc h X.
 Proof. intros E. destruct pc; cbn [esch]; rewrite ?E; try reflexivity; destruct k; rewrite ?E; reflexivity. Qed.
 
-Lemma InvC_step c tid c' : Inv c -> InvC c -> sched_step LM c tid = Some c' -> InvC c'.
+Lemma lock_pcc h pc h' nxt : is_lock pc = true -> lstep h pc = Some (h', nxt) ->
+  exists p, nxt = inl p /\ (SEq h' -> PcC h' p) /\ forall X, esch p h' X = Some (ns_sch VC (gs h' X)).
 Proof.
-  intros IV [CR CZ CP CF CH CG] St.
+  intros Hl Hs. destruct pc; try discriminate Hl; stepin Hs; destruct (nh_mtx VC h); try discriminate Hs; inversion Hs; subst;
+    (eexists; split; [reflexivity|split; [intros E; exact E|intros X; reflexivity]]).
+Qed.
+Lemma InvC_step c tid c' : Inv c -> g_schema (nh_cfg VC (sh c)) = GS -> InvC c -> sched_step LM c tid = Some c' -> InvC c'.
+Proof.
+  intros IV HCfg [CR CZ CP CF CH CG] St.
   destruct (sched_step_cases LM lstart_inl c tid c' St) as (t & o & pc & inv & h' & nxt & Hi & Hc & Hstep & Esh & Enow & Hn).
   change (Conc.step LM (sh c) pc) with (lstep (sh c) pc) in Hstep.
   pose proof (tpc_cur t o pc inv Hc) as Ht.
   change (local LM) with npcL in *. change (Conc.op LM) with nop in *. change (ret LM) with nretL in *. change (shared LM) with nshL in *.
   assert (TN : exists tn, thr c' = set_nth (thr c) (Z.to_nat tid) tn /\
             (forall o' pc' inv', t_cur tn = Some (o', pc', inv') ->
-               match nxt with inl p => pc' = p | inr _ => (exists v, pc' = oTicket VC v) \/ pc' = wLock VC end) /\
+               match nxt with inl p => pc' = p | inr _ => spc pc' = true end) /\
             (forall k, In k (Conc.hist c') -> In k (Conc.hist c) \/ match nxt with inl _ => False | inr r => c_ret k = r end)).
   { destruct nxt as [p|r].
     - destruct Hn as [Eh Et]. eexists. split; [exact Et|]. split.
@@ -474,8 +640,9 @@ Proof.
   destruct (holds pc) eqn:Hh.
   - (* the holder *)
     pose proof (i_hold c IV i t o pc inv Hi Hc Hh) as HP. fold h T in HP.
-    pose proof (hoare (fun X => F X T) (fun X => SB X T) (fun X => F_sb X T) (fun X => F_nonneg X T) h pc h' nxt (i_srt c IV) HP Hh Hstep) as (PO & _ & STB).
-    pose proof (contH h (fun X => F X T) (fun X => SB X T) pc h' nxt (fun X => F_sb X T) HP Hh Hstep CR CZ (CP i t o pc inv Hi Hc) (CH i t o pc inv Hi Hc Hh)) as (R' & Z' & K).
+    pose proof (hoare (fun X => F X T) (fun X => SB X T) (fun X => F_sb X T) (fun X => F_nonneg X T) h pc h' nxt (i_srt c IV) HP Hh Hstep) as PO0.
+    pose proof PO0 as (PO & _ & STB).
+    pose proof (contH h (fun X => F X T) (fun X => SB X T) pc h' nxt (fun X => F_sb X T) HP Hh Hstep CR CZ (CP i t o pc inv Hi Hc) (CH i t o pc inv Hi Hc Hh) PO0 HCfg) as (R' & Z' & K).
     assert (Hhc : hcnt (tpc t) = 1) by (rewrite Ht; cbn [hcnt]; rewrite Hh; reflexivity).
     assert (Other : forall j tj oj pcj invj, j <> i -> nth_error T j = Some tj -> t_cur tj = Some (oj, pcj, invj) -> holds pcj = false).
     { intros j tj oj pcj invj Nj Hj Hcj. destruct (holds pcj) eqn:E; [|reflexivity]. exfalso. assert (2 <= NH T); [|lia].
@@ -483,7 +650,7 @@ Proof.
     constructor; rewrite ?Esh, ?ET.
     + exact R'. + exact Z'.
     + intros j tj oj pcj invj Hj Hcj. destruct (nth_error_set_nth_inv _ _ _ _ _ Hj) as [[-> ->]|[Nj Hj']].
-      * specialize (TNpc _ _ _ Hcj). destruct nxt as [p|r]; [subst pcj; apply K|]. destruct TNpc as [[v ->]| ->]; exact I.
+      * specialize (TNpc _ _ _ Hcj). destruct nxt as [p|r]; [subst pcj; apply K|]. destruct pcj; try discriminate TNpc; exact I.
       * apply (pcc_obs_frame h h' pcj (Other j tj oj pcj invj Nj Hj' Hcj)); [|apply (CP j tj oj pcj invj Hj' Hcj)].
         intros b Eb. apply STB. pose proof (F_ge b T j tj Hj') as G. rewrite (tpc_cur _ _ _ _ Hcj) in G. cbn [fcnt] in G. rewrite Eb, Bool.eqb_reflx in G. lia.
     + intros Em. destruct nxt as [p|r].
@@ -491,58 +658,45 @@ Proof.
         pose proof (zsum_ge_nth (fun t => hcnt (tpc t)) T (fun t => proj1 (hcnt_range (tpc t))) i t Hi) as G. cbv beta in G. fold tsum in G. fold (NH T) in G. lia.
       * destruct K as (_ & A & B). split; assumption.
     + intros j tj oj pcj invj Hj Hcj Hhj. destruct (nth_error_set_nth_inv _ _ _ _ _ Hj) as [[-> ->]|[Nj Hj']].
-      * specialize (TNpc _ _ _ Hcj). destruct nxt as [p|r]; [subst pcj; apply K|]. destruct TNpc as [[v ->]| ->]; discriminate Hhj.
+      * specialize (TNpc _ _ _ Hcj). destruct nxt as [p|r]; [subst pcj; apply K|]. rewrite (spc_holds _ TNpc) in Hhj; discriminate Hhj.
       * rewrite (Other j tj oj pcj invj Nj Hj' Hcj) in Hhj. discriminate.
     + intros k Hk. destruct (HH k Hk) as [Hk'|Hk']; [apply CG; exact Hk'|]. destruct nxt as [p|r]; [contradiction|]. rewrite Hk'. apply K.
-  - destruct (npc_lock_dec pc) as [[-> | ->]|[N1 N2]].
-    + (* lLock *) stepin Hstep. destruct (nh_mtx VC h) eqn:Mt; [discriminate|]. injection Hstep as E1 E2. subst nxt h'.
-      destruct (CF eq_refl) as [SE CC].
+  - destruct (is_lock pc) eqn:Hl.
+    + (* Mutex.Lock *) destruct (lock_step h pc h' nxt Hl Hstep) as (Mt & Eh' & p0 & Enx & Hp & _).
+      destruct (lock_pcc h pc h' nxt Hl Hstep) as (p & Enx' & PP & EE). rewrite Enx in Enx'. inversion Enx'. subst p0. subst nxt. clear Enx'.
+      assert (Esh' : sh c' = set_mtx VC h true) by (rewrite Esh; exact Eh'). clear Esh. subst h'.
+      destruct (CF Mt) as [SE CC].
       assert (G : forall X, gs (set_mtx VC h true) X = gs h X) by (intros X; destruct h, X; reflexivity).
-      constructor; rewrite ?Esh, ?ET.
+      constructor; rewrite ?Esh', ?ET.
       * intros X. rewrite G. apply CR. * intros X. rewrite G. apply CZ.
       * intros j tj oj pcj invj Hj Hcj. destruct (nth_error_set_nth_inv _ _ _ _ _ Hj) as [[-> ->]|[Nj Hj']].
-        -- pose proof (TNpc _ _ _ Hcj). subst pcj. cbn [PcC]. unfold SEq. rewrite !G. exact SE.
+        -- pose proof (TNpc _ _ _ Hcj). subst pcj. apply PP. unfold SEq. rewrite !G. exact SE.
         -- apply (pcc_sch_frame h); [intros X; rewrite G; reflexivity|apply (CP j tj oj pcj invj Hj' Hcj)].
       * destruct h; discriminate.
       * intros j tj oj pcj invj Hj Hcj Hhj X. destruct (nth_error_set_nth_inv _ _ _ _ _ Hj) as [[-> ->]|[Nj Hj']].
-        -- pose proof (TNpc _ _ _ Hcj). subst pcj. cbn [esch clm]. rewrite G. apply CC.
-        -- exfalso. pose proof (i_nh c IV) as N. fold h T in N. rewrite Mt in N.
-           pose proof (zsum_ge_nth (fun t => hcnt (tpc t)) T (fun t => proj1 (hcnt_range (tpc t))) j tj Hj') as GG. cbv beta in GG.
-           fold tsum in GG. fold (NH T) in GG. rewrite (tpc_cur _ _ _ _ Hcj) in GG. cbn [hcnt] in GG. rewrite Hhj in GG. lia.
-      * intros k Hk. destruct (HH k Hk) as [Hk'|[]]. apply CG. exact Hk'.
-    + (* wLock *) stepin Hstep. destruct (nh_mtx VC h) eqn:Mt; [discriminate|]. injection Hstep as E1 E2. subst nxt h'.
-      destruct (CF eq_refl) as [SE CC].
-      assert (G : forall X, gs (set_mtx VC h true) X = gs h X) by (intros X; destruct h, X; reflexivity).
-      constructor; rewrite ?Esh, ?ET.
-      * intros X. rewrite G. apply CR. * intros X. rewrite G. apply CZ.
-      * intros j tj oj pcj invj Hj Hcj. destruct (nth_error_set_nth_inv _ _ _ _ _ Hj) as [[-> ->]|[Nj Hj']].
-        -- pose proof (TNpc _ _ _ Hcj). subst pcj. cbn [PcC]. unfold SEq. rewrite !G. exact SE.
-        -- apply (pcc_sch_frame h); [intros X; rewrite G; reflexivity|apply (CP j tj oj pcj invj Hj' Hcj)].
-      * destruct h; discriminate.
-      * intros j tj oj pcj invj Hj Hcj Hhj X. destruct (nth_error_set_nth_inv _ _ _ _ _ Hj) as [[-> ->]|[Nj Hj']].
-        -- pose proof (TNpc _ _ _ Hcj). subst pcj. cbn [esch clm]. rewrite G. apply CC.
+        -- pose proof (TNpc _ _ _ Hcj). subst pcj. rewrite EE. cbn [clm]. rewrite G. apply CC.
         -- exfalso. pose proof (i_nh c IV) as N. fold h T in N. rewrite Mt in N.
            pose proof (zsum_ge_nth (fun t => hcnt (tpc t)) T (fun t => proj1 (hcnt_range (tpc t))) j tj Hj') as GG. cbv beta in GG.
            fold tsum in GG. fold (NH T) in GG. rewrite (tpc_cur _ _ _ _ Hcj) in GG. cbn [hcnt] in GG. rewrite Hhj in GG. lia.
       * intros k Hk. destruct (HH k Hk) as [Hk'|[]]. apply CG. exact Hk'.
     + (* an observer *)
-      pose proof (contO h pc h' nxt Hh N1 N2 (i_obs c IV i t o pc inv Hi Hc) Hstep CR CZ (CP i t o pc inv Hi Hc)) as (SZ & PN & CT).
+      pose proof (contO h pc h' nxt Hh Hl (i_obs c IV i t o pc inv Hi Hc) Hstep CR CZ (CP i t o pc inv Hi Hc)) as (SZ & PN & CT).
       assert (ES : forall X, ns_sch VC (gs h' X) = ns_sch VC (gs h X)) by (intros X; apply SZ).
       assert (Mx : nh_mtx VC h' = nh_mtx VC h).
-      { pose proof (obs_local h pc h' nxt None Hh N1 N2 (i_obs c IV i t o pc inv Hi Hc) Hstep) as OL. clear - Hstep Hh N1 N2.
-        destruct pc; try discriminate Hh; try congruence; stepin Hstep; destr_in Hstep; inversion Hstep; subst; unfold upd_side;
+      { clear - Hstep Hh Hl.
+        destruct pc; try discriminate Hh; try discriminate Hl; stepin Hstep; destr_in Hstep; inversion Hstep; subst; unfold upd_side;
           repeat match goal with h0 : nshL |- _ => destruct h0 end; repeat match goal with b : bool |- _ => destruct b end; reflexivity. }
       constructor; rewrite ?Esh, ?ET.
       * intros X. rewrite ES. apply CR. * intros X. destruct (SZ X) as [_ E]. rewrite E. apply CZ.
       * intros j tj oj pcj invj Hj Hcj. destruct (nth_error_set_nth_inv _ _ _ _ _ Hj) as [[-> ->]|[Nj Hj']].
-        -- specialize (TNpc _ _ _ Hcj). destruct nxt as [p|r]; [subst pcj; exact PN|]. destruct TNpc as [[v ->]| ->]; exact I.
+        -- specialize (TNpc _ _ _ Hcj). destruct nxt as [p|r]; [subst pcj; exact PN|]. destruct pcj; try discriminate TNpc; exact I.
         -- apply (pcc_sch_frame h h' pcj ES (CP j tj oj pcj invj Hj' Hcj)).
       * intros Em. rewrite Mx in Em. destruct (CF Em) as [SE CC]. split; [unfold SEq in *; rewrite !ES; exact SE|].
         intros X. rewrite ES. apply (CT X _ (CC X)). intros _. reflexivity.
       * intros j tj oj pcj invj Hj Hcj Hhj X. destruct (nth_error_set_nth_inv _ _ _ _ _ Hj) as [[-> ->]|[Nj Hj']].
         -- exfalso. specialize (TNpc _ _ _ Hcj). destruct nxt as [p|r].
-           ++ subst pcj. clear - Hstep Hh N1 N2 Hhj. destruct pc; try discriminate Hh; try congruence; stepin Hstep; destr_in Hstep; inversion Hstep; subst; discriminate Hhj.
-           ++ destruct TNpc as [[v ->]| ->]; discriminate Hhj.
+           ++ subst pcj. clear - Hstep Hh Hl Hhj. destruct pc; try discriminate Hh; try discriminate Hl; stepin Hstep; destr_in Hstep; inversion Hstep; subst; discriminate Hhj.
+           ++ rewrite (spc_holds _ TNpc) in Hhj; discriminate Hhj.
         -- pose proof (CH j tj oj pcj invj Hj' Hcj Hhj X) as C. rewrite (esch_sch_frame h h' pcj X ES).
            destruct (esch pcj h X) as [s|] eqn:Ee; [|exact I]. cbn [clm] in *. apply (CT X s C). intros Ei.
            pose proof (i_hold c IV j tj oj pcj invj Hj' Hcj Hhj) as HPj. fold h T in HPj.
@@ -552,24 +706,32 @@ Proof.
       * intros k Hk. destruct (HH k Hk) as [Hk'|Hk']; [apply CG; exact Hk'|]. destruct nxt as [p|r]; [contradiction|]. rewrite Hk', PN. exact I.
 Qed.
 
-Lemma InvC_init g progs : valid_config g -> InvC (init_config LM (linit g) progs).
+End WithG.
+
+Lemma InvC_init g progs : valid_config g -> InvC (g_schema g) (init_config LM (linit g) progs).
 Proof.
   intros Hv. destruct (init_fresh LM lstart_inl (linit g) progs) as [HF HH]. rewrite Forall_forall in HF.
   constructor.
   - intros [|]; exact Hv.
   - intros [|]; apply init_zt_nonneg.
-  - intros i t o pc inv Hi Hc. specialize (HF t (nth_error_In _ _ Hi)). destruct (fresh_pc 0 t o pc inv HF Hc) as [[v ->]| ->]; exact I.
+  - intros i t o pc inv Hi Hc. specialize (HF t (nth_error_In _ _ Hi)). pose proof (fresh_pc 0 t o pc inv HF Hc) as SP. destruct pc; try discriminate SP; exact I.
   - intros _. split; [reflexivity|]. intros [|]; split; apply contm_empty.
-  - intros i t o pc inv Hi Hc Hh. exfalso. specialize (HF t (nth_error_In _ _ Hi)). destruct (fresh_pc 0 t o pc inv HF Hc) as [[v ->]| ->]; discriminate.
+  - intros i t o pc inv Hi Hc Hh. exfalso. specialize (HF t (nth_error_In _ _ Hi)). rewrite (spc_holds _ (fresh_pc 0 t o pc inv HF Hc)) in Hh. discriminate.
   - rewrite HH. intros k [].
 Qed.
-Lemma InvC_reachable g progs sched : valid_config g -> InvC (run_sched LM (init_config LM (linit g) progs) sched).
+Lemma sched_step_cfg c tid c' : sched_step LM c tid = Some c' -> nh_cfg VC (sh c') = nh_cfg VC (sh c).
+Proof.
+  intros St. destruct (sched_step_L c tid c' St) as (t & o & pc & inv & h' & nxt & Hi & Hc & Hs & Esh & Et). rewrite Esh. apply (lstep_cfg _ _ _ _ Hs).
+Qed.
+Lemma InvC_reachable g progs sched : valid_config g -> InvC (g_schema g) (run_sched LM (init_config LM (linit g) progs) sched).
 Proof.
   intros Hv.
-  assert (H : Inv (run_sched LM (init_config LM (linit g) progs) sched) /\ InvC (run_sched LM (init_config LM (linit g) progs) sched)).
-  { apply (run_sched_ind LM (fun c => Inv c /\ InvC c)).
-    - intros c tid c' [Hi Hc] Hs. split; [exact (Inv_step c tid c' Hi Hs)|exact (InvC_step c tid c' Hi Hc Hs)].
-    - split; [apply Inv_init|apply InvC_init; exact Hv]. }
+  assert (H : (Inv (run_sched LM (init_config LM (linit g) progs) sched) /\ nh_cfg VC (sh (run_sched LM (init_config LM (linit g) progs) sched)) = g) /\
+              InvC (g_schema g) (run_sched LM (init_config LM (linit g) progs) sched)).
+  { apply (run_sched_ind LM (fun c => (Inv c /\ nh_cfg VC (sh c) = g) /\ InvC (g_schema g) c)).
+    - intros c tid c' [[Hi Hg] Hc] Hs. split; [split; [exact (Inv_step c tid c' Hi Hs)|rewrite (sched_step_cfg c tid c' Hs); exact Hg]|].
+      apply (InvC_step (g_schema g) Hv c tid c' Hi); [rewrite Hg; reflexivity|exact Hc|exact Hs].
+    - split; [split; [apply Inv_init|reflexivity]|apply InvC_init; exact Hv]. }
   apply H.
 Qed.
 
@@ -587,7 +749,7 @@ Let lc := run_sched LM (init_config LM (linit g) progs) sched.
 Lemma writes_contained_L : forall k o, In k (Conc.hist lc) -> c_ret k = NOut VC o ->
   contained (no_sch VC o) (no_pos VC o) (no_neg VC o).
 Proof.
-  intros k o Hk Er. pose proof (c_hist lc (InvC_reachable g progs sched Hv) k Hk) as R. rewrite Er in R. cbn [ret_fit] in R.
+  intros k o Hk Er. pose proof (c_hist _ lc (InvC_reachable g progs sched Hv) k Hk) as R. rewrite Er in R. cbn [ret_fit] in R.
   destruct R as (A & B & Rg). intros [|] kk c v H1 H2; apply (fit_in_key _ kk _ v Rg); [apply (B kk c v H1 H2)|apply (A kk c v H1 H2)].
 Qed.
 
@@ -596,8 +758,8 @@ Lemma quiescent_contained_L : all_done LM lc = true ->
   let hot := gs (sh lc) (nh_hot VC (sh lc)) in contained (ns_sch VC hot) (ns_pos VC hot) (ns_neg VC hot).
 Proof.
   intros Hd hot. pose proof (quiescent_L g progs sched Hd) as Q. cbv zeta in Q. fold lc in Q. destruct Q as (Mt & _).
-  pose proof (InvC_reachable g progs sched Hv) as IC. fold lc in IC. destruct (c_free lc IC Mt) as [_ CC].
-  apply contained_of_cont; [apply (c_rng lc IC)|apply CC].
+  pose proof (InvC_reachable g progs sched Hv) as IC. fold lc in IC. destruct (c_free _ lc IC Mt) as [_ CC].
+  apply contained_of_cont; [apply (c_rng _ lc IC)|apply CC].
 Qed.
 End ContThm.
 
@@ -609,22 +771,33 @@ Let lc := run_sched LM (init_config LM (linit g) progs) sched.
 
 (* the integer state at quiescence is the length-image of a value-carrying state whose counter is a permutation of the
    observed values, whose zero bucket and buckets partition the non-NaN ones, and whose buckets contain their values *)
-Lemma quiescent_contained_Z : all_done ZM zc = true ->
+Lemma quiescent_contained_Z : g_min_reset g = 0 -> all_done ZM zc = true ->
   exists hl : nshL, sh zc = zsh hl /\
     let hot := gs hl (nh_hot VC hl) in let AV := obs_vals (concat progs) in
     Permutation (cntv hot) AV /\
     Permutation (ns_zb VC hot ++ allc (ns_pos VC hot) ++ allc (ns_neg VC hot)) (nn AV) /\
     contained (ns_sch VC hot) (ns_pos VC hot) (ns_neg VC hot).
 Proof.
-  intros Hd. assert (Ez : zc = zcfg lc) by apply zrun.
+  intros G0 Hd. assert (Ez : zc = zcfg lc) by apply zrun.
   assert (Hd' : all_done LM lc = true).
   { rewrite <- Hd, Ez. symmetry. apply (all_done_hom (list f64) Z [] (@app f64) (fun v => [v]) (fun l => Z.of_nat (length l)) 0 Z.add (fun _ => 1) (fun x => x) phiL). }
   exists (sh lc). split; [rewrite Ez; reflexivity|]. cbv zeta.
-  pose proof (quiescent_values_L g progs sched Hd') as PV0. fold lc in PV0.
+  pose proof (quiescent_values_L g progs sched G0 Hd') as PV0. fold lc in PV0.
   pose proof (quiescent_L g progs sched Hd') as Q. cbv zeta in Q. fold lc in Q. destruct Q as (_ & _ & P & _).
   split; [exact PV0|split].
   - unfold sec in P. rewrite P. apply nn_perm. exact PV0.
   - apply (quiescent_contained_L g progs sched Hv Hd').
+Qed.
+
+(* with or without resets: at quiescence the integer state is the length-image of a value-carrying state whose hot buckets contain their values *)
+Lemma quiescent_contained_gen_Z : all_done ZM zc = true ->
+  exists hl : nshL, sh zc = zsh hl /\
+    let hot := gs hl (nh_hot VC hl) in contained (ns_sch VC hot) (ns_pos VC hot) (ns_neg VC hot).
+Proof.
+  intros Hd. assert (Ez : zc = zcfg lc) by apply zrun.
+  assert (Hd' : all_done LM lc = true).
+  { rewrite <- Hd, Ez. symmetry. apply (all_done_hom (list f64) Z [] (@app f64) (fun v => [v]) (fun l => Z.of_nat (length l)) 0 Z.add (fun _ => 1) (fun x => x) phiL). }
+  exists (sh lc). split; [rewrite Ez; reflexivity|]. apply (quiescent_contained_L g progs sched Hv Hd').
 Qed.
 
 Lemma writes_contained_Z : forall k o, In k (Conc.hist zc) -> c_ret k = NOut Z o ->
